@@ -72,10 +72,23 @@ class Runtime:
             return []
         got = self.model.run(lines)
         bad = []
+        dist = ctx.distribution.setdefault("by_stream_family", {})
+        fam = dist.setdefault(stream.split("[")[0], {"ops": {}, "results": {}, "payload_chars": {}})
         for i, (l, e, g) in enumerate(zip(lines, expected, got)):
             if e is None:
                 continue
             st["evaluations"] += 1
+            # input distribution for the evidence: operation, kind of result (ok / which error), size bucket
+            f = l.split("\t")
+            fam["ops"][f[0]] = fam["ops"].get(f[0], 0) + 1
+            ef = e.split("\t")
+            kind = ef[0] if ef[0] != "err" else "err:" + (ef[1] if len(ef) > 1 else "?")
+            if len(kind) > 40:
+                kind = kind[:40]
+            fam["results"][kind] = fam["results"].get(kind, 0) + 1
+            n = (len(f[-1]) + 1) // 3 if len(f) > 1 else 0   # payload is comma-separated hex code points
+            b = "0" if n == 0 else "<=%d" % (1 << max(n - 1, 0).bit_length())
+            fam["payload_chars"][b] = fam["payload_chars"].get(b, 0) + 1
             if e != g:
                 st["disagreements"] += 1
                 human = show(i) if show else l
@@ -203,6 +216,27 @@ def judge_C01(ctx):
     return judge
 
 
+
+def deep_nesting_stage(ctx):
+    """a string over the robust alphabet whose branches nest deeper than the interpreter's recursion limit:
+    the property says it decodes; the recursive derivation cannot (residual of finding F2: since the repair the
+    decoder raises DecoderError caused by RecursionError instead of letting RecursionError escape)"""
+    s = "[C][Branch3][P][P][P]" * 2000
+    ctx.evaluations += 1
+    try:
+        sf.decoder(s)
+    except Exception as e:  # noqa
+        cause = e if isinstance(e, RecursionError) else e.__cause__
+        if isinstance(cause, RecursionError):
+            add_violation(ctx, ctx.prop + ":deep-nesting-rejected",
+                          "a string of accepted symbols nested deeper than the recursion limit is rejected (%s)" % type(e).__name__,
+                          selfies_desc="'[C][Branch3][P][P][P]'*2000", error=type(e).__name__)
+        else:
+            add_violation(ctx, ctx.prop + ":deep-nesting-error:" + type(e).__name__,
+                          "decoding a deeply nested string of accepted symbols raised " + type(e).__name__,
+                          selfies_desc="'[C][Branch3][P][P][P]'*2000", error=str(e)[:200])
+
+
 def check_C01(ctx, rt):
     ctx.rule = ("decoder(s) under table T compared with the compiled Lean model; s from: all strings <= k symbols "
                 "over a 28-symbol cover alphabet, stay-alive generator, uniform strings, >99-ring stream; "
@@ -238,6 +272,34 @@ def check_C01(ctx, rt):
             ctx.evaluations += 1
             if out and out.count("%") < 90 and not oracles.rdkit_valid(out):
                 add_violation(ctx, "C01:rdkit", "RDKit rejects the decoder output", selfies=s, output=out)
+        deep_nesting_stage(ctx)
+        # "the constraints in force" are the ones that were SET: a caller that afterwards edits the dict it passed
+        # (without setting it again) must not change what the decoder obeys
+        probe = gens.gen_stay_alive(rt.rng, rt.n(150, 2000), 25)
+        for tname, tab in tabs[:rt.n(4, 12)]:
+            mine = dict(tab)
+            sf.set_semantic_constraints(mine)
+            snapshot = dict(mine)
+            for s in probe[:20]:
+                try:
+                    sf.decoder(s)        # fills the caches under the table that was set
+                except Exception:
+                    pass
+            for k in list(mine):
+                mine[k] = 8 if mine[k] < 4 else 1       # caller-side edit of its own dict
+            for s in probe:
+                ctx.evaluations += 1
+                try:
+                    out = sf.decoder(s)
+                except Exception:
+                    continue
+                why = oracles.check_decoder_output(out, snapshot)
+                if why is not None:
+                    add_violation(ctx, "C01:caller-edit:" + why.split(":")[0],
+                                  "after the caller edited the dict it had passed to set_semantic_constraints, the decoder "
+                                  "output no longer obeys the table that was set: " + why,
+                                  selfies=s[:300], table_set=snapshot, output=out[:300])
+                    break
     finally:
         restore_default()
     ctx.exhaustive = True
@@ -271,7 +333,14 @@ def check_C02(ctx, rt):
             run_graph_stream(ctx, rt, cname, strings[1::rt.n(9, 17)], tabs[0][0], tabs[0][1])
         # malformed: rejected exactly when reached
         mal = gens.gen_malformed_selfies(rt.rng, rt.n(2000, 40000), cases[1][1][:500])
-        run_decoder_stream(ctx, rt, "malformed", mal, "default", tabs[0][1], judge=judge)
+        bad = run_decoder_stream(ctx, rt, "malformed", mal, "default", tabs[0][1], judge=judge)
+        bad += run_decoder_stream(ctx, rt, "malformed", mal, "default", tabs[0][1], op="specdec")
+        for s in list(dict.fromkeys(bad))[:20]:
+            # accept/reject (or the result) differs from the grammar on a string with symbols outside it:
+            # "rejected exactly when the derivation reaches a symbol outside the grammar" fails on this input
+            add_violation(ctx, "C02:differs-from-grammar",
+                          "decoder result differs from the derivation-grammar rendering on a string with symbols outside the grammar",
+                          selfies=s[:500], table=tabs[0][1], implementation=impl.real_decoder(s)[:300])
     finally:
         restore_default()
     ctx.exhaustive = True
@@ -353,6 +422,8 @@ def check_C07(ctx, rt):
                         break
         except ValueError:
             pass
+        restore_default()
+        deep_nesting_stage(ctx)
         # the alphabet reflects the table in force also after the caller edits the dict it passed in / got back, and
         # after a rejected update (the table in force is what get_semantic_constraints() reports)
         for tname, tab in tabs[:rt.n(8, 60)]:
